@@ -96,7 +96,7 @@ Definition spec_verdict (fl : bool) (cap : nat) (ops : list op) : option (bool *
    invoked.  The expected verdict is again constant, plus [storage_wf]. *)
 Definition own_spec_step (s : nat * nat) (o : oop) : option (nat * nat) :=
   match o with
-  | VEmplace t j _ | VAssignRv t j _ | VAssignCr t j _ | VAssignConv t j _ | VAssignTmp t j _ => Some (upd t s j)
+  | VEmplace t j _ | VAssignRv t j _ | VAssignCr t j _ | VAssignConv t j _ | VAssignTmp t j _ | VAssignFromU t j _ => Some (upd t s j)
   | VCopyAssign t | VMoveAssign t => Some (upd t s (sel (negb t) s))
   | VSwap | FSwap => Some (snd s, fst s)
   | FAssign t k _ | FAssignCr t k _ => Some (upd t s k)
